@@ -876,18 +876,44 @@ impl Xot {
                 "Cannot replace document node".to_string(),
             ));
         }
-        // there should always be a parent as we're not document node
-        let parent = self.parent(replaced_node).unwrap();
-        // record previous sibling
+        let parent = self.parent(replaced_node).ok_or_else(|| {
+            Error::InvalidOperation("Cannot replace a node without a parent".to_string())
+        })?;
+        if !self.value(replaced_node).is_normal() {
+            return Err(Error::InvalidOperation(
+                "Cannot replace an attribute or namespace node".to_string(),
+            ));
+        }
+        if replaced_node == replacing_node {
+            return Ok(());
+        }
+        // validate the replacing node before anything is modified
+        self.add_structure_check(Some(parent), replacing_node)?;
+        // record the neighbours
         let previous_node = self.previous_sibling(replaced_node);
-        // remove the replaced node, use low-level remove_tree to avoid
+        let next_node = self.next_sibling(replaced_node);
+        // take the replaced node out, use low-level detach to avoid
         // text node reconciliation and document element detection
+        replaced_node.get().detach(self.arena_mut());
+        // now insert the replacing node, unless it is a neighbour and
+        // therefore in place already
+        if previous_node != Some(replacing_node) && next_node != Some(replacing_node) {
+            if let Some(previous_node) = previous_node {
+                self.insert_after(previous_node, replacing_node)?;
+            } else {
+                self.prepend(parent, replacing_node)?;
+            }
+        }
+        // destroy the replaced node; the replacing node is not in it anymore
         replaced_node.get().remove_subtree(self.arena_mut());
-        // now insert the replacing node
-        if let Some(previous_node) = previous_node {
-            self.insert_after(previous_node, replacing_node)?;
-        } else {
-            self.prepend(parent, replacing_node)?;
+        // the previous and next node can have ended up next to each other
+        if let (Some(previous_node), Some(next_node)) = (previous_node, next_node) {
+            if !self.is_removed(previous_node)
+                && !self.is_removed(next_node)
+                && self.next_sibling(previous_node) == Some(next_node)
+            {
+                self.remove_consolidate_text_nodes(Some(previous_node), Some(next_node));
+            }
         }
         Ok(())
     }
